@@ -166,3 +166,36 @@ func (s JStep) String() string {
 	}
 	return out + ")"
 }
+
+// Body assembles memory set-up and steps without an epilogue.
+func (p *JProgram) Body() []byte {
+	a := asm.New()
+	p.emitMem(a)
+	for _, s := range p.Steps {
+		emitStep(a, s)
+	}
+	return a.Bytes()
+}
+
+// StepCode assembles the operand pushes and the instruction of one step; StepPops assembles the same pushes followed
+// by one POP per operand. StepCode is padded with JUMPDESTs (1 gas no-ops) to the length of StepPops so that both
+// variants of a program have identical layout.
+func StepCode(s JStep) []byte {
+	a := asm.New()
+	emitStep(a, s)
+	for i := 1; i < len(s.Operands); i++ {
+		a.Op(asm.JUMPDEST)
+	}
+	return a.Bytes()
+}
+
+func StepPops(s JStep) []byte {
+	a := asm.New()
+	for i := len(s.Operands) - 1; i >= 0; i-- {
+		a.PushU(s.Operands[i])
+	}
+	for range s.Operands {
+		a.Op(asm.POP)
+	}
+	return a.Bytes()
+}
